@@ -1,6 +1,9 @@
 import CuqiVerif.Model.Proto
 import CuqiVerif.Model.C08
 import CuqiVerif.Model.C08Adapt
+import CuqiVerif.Model.C08_stat
+import CuqiVerif.Model.C08_abort
+import CuqiVerif.Model.C08_history
 open CuqiVerif CuqiVerif.Proto CuqiVerif.C08
 
 /-
@@ -13,6 +16,17 @@ open CuqiVerif CuqiVerif.Proto CuqiVerif.C08
   findeps <P> <b> <wall> <x> <r> <log2> <fuel> -> epsilon | none
   tree <v> <j> <eps> <P> <b> <wall> <x> <r> <logu> <ham0> <uniforms>
     -> n | s | cand.x | leaves.x (matrix) | nodes | consumed
+  treestat <same arguments as tree>   (the 13-tuple `_BuildTree` returns, statistic accumulated symbolically)
+    -> zminus.x | zminus.r | zminus.grad | zplus.x | zplus.r | zplus.grad | cand.x | cand.logd | cand.grad | n | s
+       | ones | exps | zeros | nans | n_alpha | nodes | consumed | margin
+  abortprofile <same arguments as nuts> -> leaves:acc per executed doubling (comma separated)
+  nutsabort <same arguments as nuts> <k>  (the target raises at its k-th evaluation of the transition)
+    -> done (fewer than k evaluations) | cur.x | cur.logd | cur.grad | acc | completed doublings
+  abortresume <same arguments as nuts> <k> <r2> <e2> <uniforms2>   (interrupted at evaluation k, then one more transition of the resumed sampler)
+    -> done | <nutsabort output> :: <nuts output of the transition from the abort state with momentum r2, slice offset e2, draws uniforms2>
+  history <guard> <maxDepth> <eps> <P> <b> <wall> <x0> then per operation: `S <r> <e> <uniforms>` | `R` (reinitialize) | `C` (state round trip, same object) | `CO <x0'> <eps0'>` (into another object)
+    -> per operation, joined by ` :: `: x | logd | grad | acc | consumed | margin | max_depth in force | step size in force   (acc/consumed/margin `-` for R and C)
+  nutsstat <same arguments as nuts>   -> ones | exps | zeros | nans | n_alpha | margin   (of the last doubling executed; `unset` if none)
 -/
 def fmtXR : XR → String
   | .fin q => fmtRat q
@@ -45,6 +59,48 @@ def accTrace (c : Ctx PS) (guard : PS → Bool) (maxDepth total : Nat) : Nat →
       let here := if t.s then [s!"{total - us1.length}:{st.n}:{t.n}"] else []
       here ++ accTrace c guard maxDepth total fuel (loopBody c guard st)
     else []
+
+/-- output of the `nuts` op for a transition from `(x, r)` (start log-density must be finite) -/
+def nutsLine (t : Target) (g md : Nat) (eps : Rat) (x r : List Rat) (e : Rat) (us : List Rat) : String :=
+  match t.logd x with
+  | .fin l0 =>
+    let z0 : PS := { x := x, r := r, logd := .fin l0, grad := t.grad x }
+    let ham0 := l0 - (1/2) * dotQ r r
+    let logu := ham0 - e
+    let c := psCtx t eps logu ham0
+    let guard : PS → Bool := if g = 1 then (fun z => z.logd.isFinite) else (fun _ => true)
+    let st := nutsStep c guard md z0 us
+    let diffs := st.last.map (fun z => fmtXR ((c.ham z).subRat ham0))
+    let mg := margin c (st.last)
+    s!"{fmtBool st.acc} | {fmtVec st.cur.x} | {st.nodes} | {us.length - st.us.length} | {st.j} | {st.n} | {",".intercalate diffs} | {fmtRat mg} | {fmtXR st.cur.logd} | {fmtVec st.cur.grad}"
+  | _ => "err-nonfinite-start"
+
+/-- parse the operations of a `history` line -/
+def parseOps : List String → Option (List HOp)
+  | [] => some []
+  | "R" :: rest => (parseOps rest).map (HOp.reinit :: ·)
+  | "C" :: rest => (parseOps rest).map (HOp.restore none :: ·)
+  | "CO" :: x0' :: eps0' :: rest =>
+    match parseVec x0', parseRat eps0', parseOps rest with
+    | some x0', some eps0', some ops => some (HOp.restore (some (x0', eps0')) :: ops)
+    | _, _, _ => none
+  | "S" :: r :: e :: us :: rest =>
+    match parseVec r, parseRat e, parseVec us, parseOps rest with
+    | some r, some e, some us, some ops => some (HOp.step r e us :: ops)
+    | _, _, _, _ => none
+  | _ => none
+
+def historyOut (t : Target) (guard : PS → Bool) : HState → List HOp → List String
+  | _, [] => []
+  | s, op :: ops =>
+    let s' := hApply t guard s op
+    let info := match op with
+      | .step r e us =>
+        match hStepLoop t guard s r e us with
+        | some (c, st) => s!"{fmtBool st.acc} | {us.length - st.us.length} | {fmtRat (margin c st.last)}"
+        | none => "err | err | 0"
+      | _ => "- | - | -"
+    s!"{fmtVec s'.x} | {fmtXR s'.logd} | {fmtVec s'.grad} | {info} | {s'.md} | {fmtRat s'.eps}" :: historyOut t guard s' ops
 
 def step : List String → String
   | ["trace", g, md, eps, P, b, wall, x, r, e, us] =>
@@ -98,6 +154,95 @@ def step : List String → String
       let (tr, rest) := buildTree c v j z0 us
       s!"{tr.n} | {fmtBool tr.s} | {fmtVec tr.cand.x} | {fmtMat (tr.leaves.map (·.x))} | {tr.nodes} | {us.length - rest.length}"
     | _, _, _, _, _, _, _, _, _, _, _ => "bad-op"
+  | ["treestat", v, j, eps, P, b, wall, x, r, logu, ham0, us] =>
+    match parseInt v, parseNat j, parseRat eps, parseMat P, parseVec b, parseWall wall,
+          parseVec x, parseVec r, parseRat logu, parseRat ham0, parseVec us with
+    | some v, some j, some eps, some P, some b, some wall, some x, some r, some logu, some ham0, some us =>
+      if v ≠ 1 ∧ v ≠ -1 then "bad-op" else
+      let t : Target := { P := P, b := b, wall := wall.1, wallVal := wall.2 }
+      let z0 : PS := { x := x, r := r, logd := t.logd x, grad := t.grad x }
+      let c := psCtx t eps logu ham0
+      let (tr, (a, m), rest) := buildTreeStat c (psWeight ham0) v j z0 us
+      s!"{fmtVec tr.zminus.x} | {fmtVec tr.zminus.r} | {fmtVec tr.zminus.grad} | {fmtVec tr.zplus.x} | {fmtVec tr.zplus.r} | {fmtVec tr.zplus.grad} | {fmtVec tr.cand.x} | {fmtXR tr.cand.logd} | {fmtVec tr.cand.grad} | {tr.n} | {fmtBool tr.s} | {a.ones} | {fmtVec a.exps} | {a.zeros} | {a.nans} | {m} | {tr.nodes} | {us.length - rest.length} | {fmtRat (margin c tr.leaves)}"
+    | _, _, _, _, _, _, _, _, _, _, _ => "bad-op"
+  | ["nutsstat", g, md, eps, P, b, wall, x, r, e, us] =>
+    match parseNat g, parseNat md, parseRat eps, parseMat P, parseVec b, parseWall wall,
+          parseVec x, parseVec r, parseRat e, parseVec us with
+    | some g, some md, some eps, some P, some b, some wall, some x, some r, some e, some us =>
+      let t : Target := { P := P, b := b, wall := wall.1, wallVal := wall.2 }
+      match t.logd x with
+      | .fin l0 =>
+        let z0 : PS := { x := x, r := r, logd := .fin l0, grad := t.grad x }
+        let ham0 := l0 - (1/2) * dotQ r r
+        let c := psCtx t eps (ham0 - e) ham0
+        let guard : PS → Bool := if g = 1 then (fun z => z.logd.isFinite) else (fun _ => true)
+        let (st, o) := nutsStepStat c (psWeight ham0) guard md z0 us
+        match o with
+        | some (a, m) => s!"{a.ones} | {fmtVec a.exps} | {a.zeros} | {a.nans} | {m} | {fmtRat (margin c st.last)}"
+        | none => "unset"
+      | _ => "err-nonfinite-start"
+    | _, _, _, _, _, _, _, _, _, _ => "bad-op"
+  | ["abortprofile", g, md, eps, P, b, wall, x, r, e, us] =>
+    match parseNat g, parseNat md, parseRat eps, parseMat P, parseVec b, parseWall wall,
+          parseVec x, parseVec r, parseRat e, parseVec us with
+    | some g, some md, some eps, some P, some b, some wall, some x, some r, some e, some us =>
+      let t : Target := { P := P, b := b, wall := wall.1, wallVal := wall.2 }
+      match t.logd x with
+      | .fin l0 =>
+        let z0 : PS := { x := x, r := r, logd := .fin l0, grad := t.grad x }
+        let ham0 := l0 - (1/2) * dotQ r r
+        let c := psCtx t eps (ham0 - e) ham0
+        let guard : PS → Bool := if g = 1 then (fun z => z.logd.isFinite) else (fun _ => true)
+        let pr := loopProfile c guard md (md + 1)
+          { cur := z0, zminus := z0, zplus := z0, j := 0, s := true, n := 1, acc := false, last := [], nodes := 0, us := us }
+        if pr.isEmpty then "_" else ",".intercalate (pr.map (fun p => s!"{p.1}:{fmtBool p.2}"))
+      | _ => "err-nonfinite-start"
+    | _, _, _, _, _, _, _, _, _, _ => "bad-op"
+  | ["nutsabort", g, md, eps, P, b, wall, x, r, e, us, k] =>
+    match parseNat g, parseNat md, parseRat eps, parseMat P, parseVec b, parseWall wall,
+          parseVec x, parseVec r, parseRat e, parseVec us, parseNat k with
+    | some g, some md, some eps, some P, some b, some wall, some x, some r, some e, some us, some k =>
+      if k = 0 then "bad-op" else
+      let t : Target := { P := P, b := b, wall := wall.1, wallVal := wall.2 }
+      match t.logd x with
+      | .fin l0 =>
+        let z0 : PS := { x := x, r := r, logd := .fin l0, grad := t.grad x }
+        let ham0 := l0 - (1/2) * dotQ r r
+        let c := psCtx t eps (ham0 - e) ham0
+        let guard : PS → Bool := if g = 1 then (fun z => z.logd.isFinite) else (fun _ => true)
+        match nutsAbort c guard md z0 us k with
+        | some st => s!"{fmtVec st.cur.x} | {fmtXR st.cur.logd} | {fmtVec st.cur.grad} | {fmtBool st.acc} | {st.j}"
+        | none => "done"
+      | _ => "err-nonfinite-start"
+    | _, _, _, _, _, _, _, _, _, _, _ => "bad-op"
+  | ["abortresume", g, md, eps, P, b, wall, x, r, e, us, k, r2, e2, us2] =>
+    match parseNat g, parseNat md, parseRat eps, parseMat P, parseVec b, parseWall wall,
+          parseVec x, parseVec r, parseRat e, parseVec us, parseNat k, parseVec r2, parseRat e2, parseVec us2 with
+    | some g, some md, some eps, some P, some b, some wall, some x, some r, some e, some us, some k, some r2, some e2, some us2 =>
+      if k = 0 then "bad-op" else
+      let t : Target := { P := P, b := b, wall := wall.1, wallVal := wall.2 }
+      match t.logd x with
+      | .fin l0 =>
+        let z0 : PS := { x := x, r := r, logd := .fin l0, grad := t.grad x }
+        let ham0 := l0 - (1/2) * dotQ r r
+        let c := psCtx t eps (ham0 - e) ham0
+        let guard : PS → Bool := if g = 1 then (fun z => z.logd.isFinite) else (fun _ => true)
+        match nutsAbort c guard md z0 us k with
+        | some st =>
+          s!"{fmtVec st.cur.x} | {fmtXR st.cur.logd} | {fmtVec st.cur.grad} | {fmtBool st.acc} | {st.j} :: {nutsLine t g md eps st.cur.x r2 e2 us2}"
+        | none => "done"
+      | _ => "err-nonfinite-start"
+    | _, _, _, _, _, _, _, _, _, _, _, _, _, _ => "bad-op"
+  | "history" :: g :: md :: eps :: P :: b :: wall :: x0 :: ops =>
+    match parseNat g, parseNat md, parseRat eps, parseMat P, parseVec b, parseWall wall, parseVec x0, parseOps ops with
+    | some g, some md, some eps, some P, some b, some wall, some x0, some ops =>
+      let t : Target := { P := P, b := b, wall := wall.1, wallVal := wall.2 }
+      let guard : PS → Bool := if g = 1 then (fun z => z.logd.isFinite) else (fun _ => true)
+      if ops.isEmpty then "bad-op" else
+      match t.logd x0 with
+      | .fin _ => " :: ".intercalate (historyOut t guard (hInit t md eps x0) ops)
+      | _ => "err-nonfinite-start"
+    | _, _, _, _, _, _, _, _ => "bad-op"
   | ["adaptexp", le0, mu, delta, nb, interval, n, als, sqs, ets] =>
     match parseRat le0, parseRat mu, parseRat delta, parseNat nb, parseNat interval, parseNat n,
           parseVec als, parseVec sqs, parseVec ets with
